@@ -219,6 +219,12 @@ def generate(tier, seed):
                                 if lo <= g[0] * g[1] * max(g[2], 1) <= hi)
         order.sort(key=lev_of)      # stable: simplest first inside a level
     cur = -1
+    if not quick:
+        yield {'__level__': 'design dtypes and rejected calls'}
+    for g in all_grids():
+        dim = 3 if g[2] > 0 else 2
+        for d in dir_list(dim):
+            yield {'grid': list(g), 'ns': ns_list(dim)[0], 'par': pars_bin[0], 'dir': d, 'fam': 'dtype', 'tab': t}
     for g in order:
         nel = g[0] * g[1] * max(g[2], 1)
         dim = 3 if g[2] > 0 else 2
@@ -258,6 +264,12 @@ class Impl:
         self.mod.response()
         return np.array(self.mod.sig_out[0].state, dtype=float, copy=True)
 
+    def raw(self, arr):
+        """Response for the array as it is (own dtype and size); the output as float64."""
+        self.sig.state = arr.copy()
+        self.mod.response()
+        return np.array(self.mod.sig_out[0].state, dtype=float, copy=True)
+
     def direction_attribute(self):
         """3-vector stored by the module, or None if it cannot be judged."""
         d = getattr(self.mod, 'direction', None)
@@ -268,6 +280,112 @@ class Impl:
         if d.size not in (2, 3) or not np.all(np.isfinite(d)):
             return None
         return np.pad(d, (0, 3 - d.size))
+
+
+DTYPES = ['int64', 'bool', 'uint8', 'float32']
+
+
+def execute_dtype(case, pym, grid, dim, shape, nel, axis, sgn):
+    """The same designs given in another numeric type, and valid calls after a rejected one.
+
+    A 0/1 field stored as integers or booleans, or any field stored in single precision, is a density field in [0,1]:
+    the result has to be the one for the same numbers in double precision, whatever the module object was given
+    before (first call in that type, or after a double-precision call), and a double-precision call afterwards is
+    not affected either.  A call that is rejected (design of the wrong size) must leave the object usable."""
+    ns, par, dname = case['ns'], case['par'], case['dir']
+    xi0, p, eps = PARS[par]
+    sign = '+' if sgn > 0 else '-'
+    direction = tuple(ro.unit_vector(axis, sgn))
+    canon = Impl(pym, grid, direction, ns, par)
+    nlay = ro.n_layers(shape, axis)
+    binf = [(f"few{k}", f) for k, f in enumerate(few_fields(nel, 1))]
+    grey = [(f"{n}@{case['tab']}", grey_field(n, nel, case['tab'])) for n in GREY_NAMES]
+    other = grey[0][1]
+    yother = canon(other)
+    V, cnt, outc = {}, {'checks': 0, 'trans': 0}, set()
+
+    def report(check, sig, detail, dt, label, score=0.0):
+        s = dict(sig, check=check)
+        key = repr(sorted(s.items()))
+        if key not in V or score > V[key][0]:
+            V[key] = (score, {'check': check, 'signature': s, 'detail': detail,
+                              'case': dict(case, only=[dt, label])})
+
+    only = case.get('only')
+    for dt in DTYPES:
+        fields = (binf if dt != 'float32' else binf + grey)
+        for primed in (False, True):
+            im = Impl(pym, grid, direction, ns, par)
+            if primed:
+                im(other)
+            for label, x in fields:
+                if only and [dt, label] != list(only):
+                    continue
+                xd = x.astype(dt)
+                yexp = canon(xd.astype(float))
+                hist = ('float64 call, ' if primed else '') + f'{dt} call'
+                sg = {'dtype': dt, 'first_call': 'double' if primed else dt, 'sign': sign}
+                cnt['trans'] += 2
+                cnt['checks'] += 2
+                try:
+                    y = im.raw(xd)
+                except Exception as exc:  # noqa
+                    outc.add(f'{dt}:raises')
+                    report('dtype_raises', dict(sg, raised=type(exc).__name__),
+                           {'history': hist, 'design': xd, 'error': f"{type(exc).__name__}: {exc}"[:300],
+                            'expected (double precision)': yexp}, dt, label)
+                    y = None
+                if y is not None:
+                    e, b = alg_err(y, yexp, scale=1.0)
+                    if y.shape != yexp.shape or not e <= max(b, 1e-6 if dt == 'float32' else 0.0):
+                        outc.add(f'{dt}:differs')
+                        report('dtype_result', sg, {'history': hist, 'design': xd, 'got': y,
+                                                    'expected (double precision)': yexp, 'max_abs_diff': e},
+                               dt, label, score=e if np.isfinite(e) else 1e300)
+                    else:
+                        outc.add(f'{dt}:same')
+                try:
+                    y2 = im(other)
+                    e, b = alg_err(y2, yother, scale=1.0)
+                    ok = bool(e <= b)
+                except Exception as exc:  # noqa
+                    y2, e, ok = f"{type(exc).__name__}: {exc}"[:300], float('inf'), False
+                if not ok:
+                    report('double_after_other_dtype', sg,
+                           {'history': hist + ', float64 call', 'design_of_the_last_call': other, 'got': y2,
+                            'expected': yother, 'max_abs_diff': e}, dt, label, score=1.0)
+    # rejected call, then valid calls
+    for rej in ('one_too_long', 'one_too_short', 'empty'):
+        bad = {'one_too_long': np.zeros(nel + 1), 'one_too_short': np.zeros(max(nel - 1, 0)), 'empty': np.zeros(0)}[rej]
+        if only and list(only) != ['rejected', rej]:
+            continue
+        if bad.size == nel:
+            continue
+        im = Impl(pym, grid, direction, ns, par)
+        cnt['trans'] += 1
+        try:
+            im.raw(bad)
+            outc.add('wrong size accepted')
+            continue            # not rejected: nothing to judge here
+        except Exception:  # noqa
+            outc.add('wrong size rejected')
+        for label, x in grey[:3]:
+            cnt['trans'] += 1
+            cnt['checks'] += 1
+            yexp = canon(x)
+            try:
+                y = im(x)
+                e, b = alg_err(y, yexp, scale=1.0)
+                ok = bool(e <= b)
+            except Exception as exc:  # noqa
+                y, e, ok = f"{type(exc).__name__}: {exc}"[:300], float('inf'), False
+            if not ok:
+                report('after_rejected_call', {'rejected': 'wrong_size', 'sign': sign},
+                       {'history': f'response() with a design of size {bad.size} (raised), response() with a valid '
+                                   f'design', 'design': x, 'got': y, 'expected (fresh object)': yexp}, 'rejected', rej)
+    return {'states': cnt['trans'], 'transitions': cnt['trans'], 'checks': cnt['checks'], 'nontrivial': nlay >= 2,
+            'key': f"{grid}|{dname}|dtype", 'outcome': f"{dim}d/dtype/" + ','.join(sorted(outc)),
+            'observed_only': [], 'violations': [v for _, v in V.values()]}
 
 
 def execute(case):
@@ -284,6 +402,8 @@ def execute(case):
     if axis >= dim:
         return {'skipped': 'z direction on a 2-D domain'}
     sign = '+' if sgn > 0 else '-'
+    if case['fam'] == 'dtype':
+        return execute_dtype(case, pym, grid, dim, shape, nel, axis, sgn)
     fields = select_fields(case, nel)
     nlay = ro.n_layers(shape, axis)
     base = ro.base_layer(shape, dim, axis, sgn)
